@@ -344,7 +344,15 @@ fn run_family(args: &Args, rep: &mut Report, specs: Vec<(String, ListenSpec)>, f
     let n = specs.len();
     let mine: Vec<(usize, (String, ListenSpec))> = specs.into_iter().enumerate().filter(|(i, _)| i % args.nshards == args.shard).collect();
     let nm = mine.len().max(1);
+    static BLOCKED: std::sync::atomic::AtomicUsize = std::sync::atomic::AtomicUsize::new(0);
     for (k, (si, (name, spec))) in mine.into_iter().enumerate() {
+        let blocked_scenarios = BLOCKED.load(std::sync::atomic::Ordering::SeqCst);
+        if blocked_scenarios >= 2 {
+            // every execution runs into the watchdog (6 s each): the verdict is established, stop here
+            rep.exhaustive = false;
+            rep.notes.push(format!("stopped after {} scenarios in which a server thread blocked; the remaining scenarios of this shard were not run", blocked_scenarios));
+            break;
+        }
         let b = build_listen(spec.clone());
         let cfg = ExploreCfg {
             bound: fc.bound,
@@ -387,6 +395,9 @@ fn run_family(args: &Args, rep: &mut Report, specs: Vec<(String, ListenSpec)>, f
             }
         }
         found.sort_by_key(|f| (f.0.clone(), f.2.iter().filter(|c| **c != 0).count(), f.2.len()));
+        if found.iter().any(|f| f.0.contains("thread-blocked")) {
+            BLOCKED.fetch_add(1, std::sync::atomic::Ordering::SeqCst);
+        }
         let mut seen = std::collections::HashSet::new();
         for (sig, what, choices) in found {
             let case = json!({"scenario": name, "index": si, "sub": args.sub, "choices": choices});
